@@ -24,6 +24,10 @@ def main():
     d_fp01 = ext.add_type_def(TypeDef("fp01", "", [T.TypeTypeParam(A), T.TypeTypeParam(A)], FromParamsBound([0, 1])))
     d_fp1 = ext.add_type_def(TypeDef("fp1", "", [T.TypeTypeParam(A), T.TypeTypeParam(A)], FromParamsBound([1])))
     d_fp_none = ext.add_type_def(TypeDef("fpn", "", [T.TypeTypeParam(A)], FromParamsBound([])))
+    # index lists that name non-type parameters too, in both orders, and a repeated index
+    d_mix01 = ext.add_type_def(TypeDef("mix01", "", [T.BoundedNatParam(9), T.TypeTypeParam(A)], FromParamsBound([0, 1])))
+    d_mix10 = ext.add_type_def(TypeDef("mix10", "", [T.BoundedNatParam(9), T.TypeTypeParam(A)], FromParamsBound([1, 0])))
+    d_mix_seq = ext.add_type_def(TypeDef("mixs", "", [T.ListParam(T.TypeTypeParam(A)), T.TypeTypeParam(A), T.TypeTypeParam(A)], FromParamsBound([0, 2, 2])))
 
     atoms = [
         ("Bool", T.Bool, True), ("Qubit", T.Qubit, False), ("USize", T.USize(), True), ("Unit", T.Unit, True),
@@ -47,6 +51,9 @@ def main():
             out.append((f"Tuple({n1})", T.Tuple(t1), c1))
             out.append((f"fp0<{n1}>", T.ExtType(d_fp0, [T.TypeTypeArg(t1)]), c1))
             out.append((f"fpn<{n1}>", T.ExtType(d_fp_none, [T.TypeTypeArg(t1)]), True))
+            out.append((f"mix01<3,{n1}>", T.ExtType(d_mix01, [T.BoundedNatArg(3), T.TypeTypeArg(t1)]), c1))
+            out.append((f"mix10<3,{n1}>", T.ExtType(d_mix10, [T.BoundedNatArg(3), T.TypeTypeArg(t1)]), c1))
+            out.append((f"mixs<[Qubit],Qubit,{n1}>", T.ExtType(d_mix_seq, [T.SequenceArg([T.TypeTypeArg(T.Qubit)]), T.TypeTypeArg(T.Qubit), T.TypeTypeArg(t1)]), c1))
             out.append((f"Array<{n1},3>", Array(t1, 3), c1))
             out.append((f"List<{n1}>", List(t1), c1))
             out.append((f"Fn([{n1}])", T.FunctionType([t1], [t1]), True))
